@@ -159,6 +159,37 @@ structure FileShape where
   contents : List ContentShape
 deriving Repr
 
+mutual
+def ContentShape.decEq : (a b : ContentShape) → Decidable (a = b)
+  | .decl d, .decl d' =>
+    if h : d = d' then isTrue (by rw [h]) else isFalse (by intro e; cases e; exact h rfl)
+  | .decl _, .ns _ _ _ _ => isFalse (by intro e; cases e)
+  | .ns _ _ _ _, .decl _ => isFalse (by intro e; cases e)
+  | .ns n d c cs, .ns n' d' c' cs' =>
+    if h1 : n = n' then
+      if h2 : d = d' then
+        if h3 : c = c' then
+          match decEqContents cs cs' with
+          | isTrue h4 => isTrue (by rw [h1, h2, h3, h4])
+          | isFalse h4 => isFalse (by intro e; cases e; exact h4 rfl)
+        else isFalse (by intro e; cases e; exact h3 rfl)
+      else isFalse (by intro e; cases e; exact h2 rfl)
+    else isFalse (by intro e; cases e; exact h1 rfl)
+def decEqContents : (a b : List ContentShape) → Decidable (a = b)
+  | [], [] => isTrue rfl
+  | [], _ :: _ => isFalse (by intro h; cases h)
+  | _ :: _, [] => isFalse (by intro h; cases h)
+  | a :: as, b :: bs =>
+    match ContentShape.decEq a b with
+    | isTrue h1 =>
+      match decEqContents as bs with
+      | isTrue h2 => isTrue (by rw [h1, h2])
+      | isFalse h2 => isFalse (by intro h; cases h; exact h2 rfl)
+    | isFalse h1 => isFalse (by intro h; cases h; exact h1 rfl)
+end
+instance : DecidableEq ContentShape := ContentShape.decEq
+deriving instance DecidableEq for FileShape
+
 /-! ### erasing what the AST does not record (`dotted`; the interleaving of methods and properties) -/
 
 def FieldShape.erase (f : FieldShape) : FieldShape := { f with ty := f.ty.erase }
@@ -2055,5 +2086,284 @@ theorem typeDecl_enum_inv (fuel : Nat) (c' : List String) (ts0 ts : List Token) 
         · simp [Option.bind_eq_some_iff] at h
         · exact typeDecl_rest_not _ (by intros; simp) (by intros; simp) (by intros; simp) (by intros; simp)
             _ _ _ _ _ _ h
+
+theorem typeDecl_flags_inv (fuel : Nat) (c' : List String) (ts0 ts : List Token) (n : String) (c : List String)
+    (is : List FlagItem) (p : Pos) (rest : List Token)
+    (h : typeDecl fuel c' ts0 ts = some (.flags n c is p, rest)) :
+    c = c' ∧ ∃ nt eq k lb body rb, ts = nt :: eq :: k :: lb :: body ∧ nt.tk = .id n ∧ eq.tk = .kw "=" ∧
+      k.tk = .kw "flags" ∧ lb.tk = .kw "{" ∧ rb.tk = .kw "}" ∧
+      many fuel (peekKw "}") flagItem fuel body = some (is, rb :: rest) := by
+  unfold typeDecl at h
+  simp only [Option.bind_eq_bind] at h
+  cases hi : ident ts with
+  | none => simp [hi] at h
+  | some y =>
+    obtain ⟨n', ts1⟩ := y
+    obtain ⟨nt, rfl, hn⟩ := ident_inv hi
+    simp only [hi, Option.bind_some] at h
+    cases hk : kw? "=" ts1 with
+    | none => simp [hk] at h
+    | some ts2 =>
+      obtain ⟨eq, rfl, heq⟩ := kw?_inv hk
+      simp only [hk, Option.bind_some] at h
+      by_cases he : peekKw "enum" ts2 = true
+      · exfalso
+        simp only [he, if_true] at h
+        simp [Option.bind_eq_some_iff] at h
+      · simp only [he, Bool.false_eq_true, if_false] at h
+        by_cases hf : peekKw "flags" ts2 = true
+        · obtain ⟨k, hk2, hkk⟩ := peekKw_inv hf
+          simp only [hf, if_true] at h
+          cases hl : kw? "{" ts2.tail with
+          | none => simp [hl] at h
+          | some ts3 =>
+            obtain ⟨lb, hlb, hlbk⟩ := kw?_inv hl
+            simp only [hl, Option.bind_some] at h
+            cases hm : many fuel (peekKw "}") flagItem fuel ts3 with
+            | none => simp [hm] at h
+            | some z =>
+              obtain ⟨is', ts4⟩ := z
+              simp only [hm, Option.bind_some] at h
+              cases hr : kw? "}" ts4 with
+              | none => simp [hr] at h
+              | some ts5 =>
+                obtain ⟨rb, rfl, hrb⟩ := kw?_inv hr
+                simp only [hr, Option.bind_some, Option.pure_def, Option.some.injEq, Prod.mk.injEq, Decl.flags.injEq] at h
+                obtain ⟨⟨rfl, rfl, rfl, -⟩, rfl⟩ := h
+                exact ⟨rfl, nt, eq, k, lb, ts3, rb, by rw [hk2, hlb], hn, heq, hkk, hlbk, hrb, hm⟩
+        · exfalso
+          simp only [hf, Bool.false_eq_true, if_false] at h
+          exact typeDecl_rest_not _ (by intros; simp) (by intros; simp) (by intros; simp) (by intros; simp)
+            _ _ _ _ _ _ h
+
+/-- a successful `content` parse that returns a declaration went through `typeDecl` -/
+theorem content_decl_inv (fuel : Nat) (ts : List Token) (d : Decl) (rest : List Token)
+    (h : content fuel ts = some (.decl d, rest)) :
+    ∃ g, fuel = g + 1 ∧ typeDecl g (comments ts).1 ts (comments ts).2 = some (d, rest) := by
+  cases fuel with
+  | zero => simp [content] at h
+  | succ g =>
+    refine ⟨g, rfl, ?_⟩
+    rw [content_succ] at h
+    split at h
+    · exfalso
+      repeat' split at h
+      all_goals simp at h
+    · cases ht : typeDecl g (comments ts).1 ts (comments ts).2 with
+      | none => simp [ht] at h
+      | some y =>
+        obtain ⟨d', r⟩ := y
+        simp [ht] at h
+        obtain ⟨rfl, rfl⟩ := h
+        rfl
+
+/-! # Main theorems
+
+Conventions: `toks` is any token list whose kinds (`.tk`) are the printed ones — line, column and
+length fields are arbitrary; `rest` is whatever follows; `fuel` is any number at least the number
+of printed tokens. The declaration parser is `content` (comment lines, then `typeDecl`). -/
+
+/-- **declarations**: parsing a printed declaration (of any of the six kinds) followed by `rest`
+    returns a declaration whose position-erased shape is the printed one and leaves exactly `rest`.
+    Side conditions: the follow condition `DeclFollowOK` (only for a record without `deriving`: the
+    next token is not `deriving`) and `fuel ≥` number of printed tokens. -/
+theorem decl_roundtrip (d : DeclShape) (toks rest : List Token) (fuel : Nat)
+    (hp : toks.map (·.tk) = printDecl d) (hfollow : DeclFollowOK d rest) (hfuel : toks.length ≤ fuel) :
+    ∃ x, content fuel (toks ++ rest) = some (.decl x, rest) ∧ x.shape? = some d.erase := by
+  obtain ⟨a, ha, hs⟩ := content_print (.decl d) toks rest fuel hp hfollow hfuel
+  cases a with
+  | decl x =>
+    refine ⟨x, ha, ?_⟩
+    simp only [Content.shape?, ContentShape.erase, Option.map_eq_some_iff] at hs
+    obtain ⟨y, hy, hyy⟩ := hs
+    cases hyy; exact hy
+  | ns n c cs p => simp [Content.shape?, ContentShape.erase] at hs
+
+theorem Decl.shape?_enum_inv {x : Decl} {n : String} {c : List String} {items : List ItemShape}
+    (hs : x.shape? = some (.enum n c items)) : ∃ is p, x = .enum n c is p ∧ is.map Item.shape = items := by
+  cases x with
+  | enum n' c' is p =>
+    simp [Decl.shape?] at hs
+    obtain ⟨rfl, rfl, rfl⟩ := hs
+    exact ⟨_, _, rfl, rfl⟩
+  | interface => exfalso; simp only [Decl.shape?] at hs; split at hs <;> simp at hs
+  | function n' c' sig p => cases sig; simp [Decl.shape?] at hs
+  | flags => simp [Decl.shape?] at hs
+  | record => simp [Decl.shape?] at hs
+  | error => simp [Decl.shape?] at hs
+
+theorem Decl.shape?_flags_inv {x : Decl} {n : String} {c : List String} {items : List FlagItemShape}
+    (hs : x.shape? = some (.flags n c items)) : ∃ is p, x = .flags n c is p ∧ is.map FlagItem.shape = items := by
+  cases x with
+  | flags n' c' is p =>
+    simp [Decl.shape?] at hs
+    obtain ⟨rfl, rfl, rfl⟩ := hs
+    exact ⟨_, _, rfl, rfl⟩
+  | interface => exfalso; simp only [Decl.shape?] at hs; split at hs <;> simp at hs
+  | function n' c' sig p => cases sig; simp [Decl.shape?] at hs
+  | enum => simp [Decl.shape?] at hs
+  | record => simp [Decl.shape?] at hs
+  | error => simp [Decl.shape?] at hs
+
+/-- `# c…  name = enum { (# c… item ;)* }`: the parser returns exactly this enum -/
+theorem enum_roundtrip (name : String) (comment : List String) (items : List ItemShape)
+    (toks rest : List Token) (fuel : Nat)
+    (hp : toks.map (·.tk) = printEnum name comment items) (hfuel : toks.length ≤ fuel) :
+    ∃ is p, content fuel (toks ++ rest) = some (.decl (.enum name comment is p), rest) ∧
+      is.map Item.shape = items := by
+  obtain ⟨x, hx, hs⟩ := decl_roundtrip (.enum name comment items) toks rest fuel hp trivial hfuel
+  obtain ⟨is, p, rfl, his⟩ := Decl.shape?_enum_inv hs
+  exact ⟨is, p, hx, his⟩
+
+/-- `# c…  name = flags { (# c… item [= modifier] ;)* }` -/
+theorem flags_roundtrip (name : String) (comment : List String) (items : List FlagItemShape)
+    (toks rest : List Token) (fuel : Nat)
+    (hp : toks.map (·.tk) = printFlags name comment items) (hfuel : toks.length ≤ fuel) :
+    ∃ is p, content fuel (toks ++ rest) = some (.decl (.flags name comment is p), rest) ∧
+      is.map FlagItem.shape = items := by
+  obtain ⟨x, hx, hs⟩ := decl_roundtrip (.flags name comment items) toks rest fuel hp trivial hfuel
+  obtain ⟨is, p, rfl, his⟩ := Decl.shape?_flags_inv hs
+  exact ⟨is, p, hx, his⟩
+
+/-- `# c…  name = record targets… { fields } [deriving ( d₁ , … )]`; a record without `deriving`
+    must not be followed by the keyword `deriving` -/
+theorem record_roundtrip (name : String) (comment : List String) (targets' : List String)
+    (fields : List FieldShape) (deriving' : Option (List String)) (toks rest : List Token) (fuel : Nat)
+    (hp : toks.map (·.tk) = printRecord name comment targets' fields deriving')
+    (hfollow : deriving' = none → peekKw "deriving" rest = false) (hfuel : toks.length ≤ fuel) :
+    ∃ x, content fuel (toks ++ rest) = some (.decl x, rest) ∧
+      x.shape? = some (.record name comment targets' (fields.map FieldShape.erase) deriving') :=
+  decl_roundtrip (.record name comment targets' fields deriving') toks rest fuel hp
+    (by cases deriving' with
+        | none => exact hfollow rfl
+        | some _ => trivial) hfuel
+
+/-- `# c…  name = [main] interface targets… { (method | property)* }`; the AST keeps methods and
+    properties in two lists, hence `sortMembers` -/
+theorem interface_roundtrip (name : String) (comment : List String) (main : Bool) (targets' : List String)
+    (members : List MemberShape) (toks rest : List Token) (fuel : Nat)
+    (hp : toks.map (·.tk) = printInterface name comment main targets' members) (hfuel : toks.length ≤ fuel) :
+    ∃ x, content fuel (toks ++ rest) = some (.decl x, rest) ∧
+      x.shape? = some (.interface name comment main targets' (sortMembers (members.map MemberShape.erase))) :=
+  decl_roundtrip (.interface name comment main targets' members) toks rest fuel hp trivial hfuel
+
+/-- `# c…  name = [function targets…] ( params ) [throws …] [-> ret] ;` -/
+theorem function_roundtrip (name : String) (comment : List String) (fnTargets : Option (List String))
+    (sig : SigShape) (toks rest : List Token) (fuel : Nat)
+    (hp : toks.map (·.tk) = printFunction name comment fnTargets sig) (hfuel : toks.length ≤ fuel) :
+    ∃ x, content fuel (toks ++ rest) = some (.decl x, rest) ∧
+      x.shape? = some (.function name comment fnTargets sig.erase) :=
+  decl_roundtrip (.function name comment fnTargets sig) toks rest fuel hp trivial hfuel
+
+/-- `# c…  name = error { (# c… code [( p₁ p₂ … )] ;)* }` -/
+theorem errorDomain_roundtrip (name : String) (comment : List String) (codes : List ErrCodeShape)
+    (toks rest : List Token) (fuel : Nat)
+    (hp : toks.map (·.tk) = printErrorDomain name comment codes) (hfuel : toks.length ≤ fuel) :
+    ∃ x, content fuel (toks ++ rest) = some (.decl x, rest) ∧
+      x.shape? = some (.error name comment (codes.map ErrCodeShape.erase)) :=
+  decl_roundtrip (.error name comment codes) toks rest fuel hp trivial hfuel
+
+/-- interface members on their own: `# c… [static] [const] [async] name ( … ) … ;` -/
+theorem method_roundtrip (m : MethodShape) (toks rest : List Token) (fuel : Nat)
+    (hp : toks.map (·.tk) = printMethod m) (hfuel : toks.length ≤ fuel) :
+    ∃ a, member fuel (toks ++ rest) = some (a, rest) ∧ a.shape? = some (.m m.erase) :=
+  method_print m toks rest fuel hp hfuel
+
+/-- `# c… property name : T ;` -/
+theorem property_roundtrip (p : PropShape) (toks rest : List Token) (fuel : Nat)
+    (hp : toks.map (·.tk) = printProp p) (hfuel : toks.length ≤ fuel) :
+    ∃ a, member fuel (toks ++ rest) = some (a, rest) ∧ a.shape? = some (.p p.erase) :=
+  prop_print p toks rest fuel hp hfuel
+
+/-- `# c… code [( p₁ p₂ … )] ;` -/
+theorem errCode_roundtrip (e : ErrCodeShape) (toks rest : List Token) (fuel : Nat)
+    (hp : toks.map (·.tk) = printErrCode e) (hfuel : toks.length ≤ fuel) :
+    ∃ a, errCode fuel (toks ++ rest) = some (a, rest) ∧ a.shape? = some e.erase :=
+  errCode_print e toks rest fuel hp hfuel
+
+/-- **namespaces**: a printed content (a declaration, or `# c… namespace a.b { content* }` nested to
+    any depth) parses to a content of that shape. Side conditions: `ContentFollowOK` (a top-level
+    record without `deriving` is not followed by `deriving`) and `fuel ≥` number of printed tokens
+    (each nesting level uses one unit). -/
+theorem content_roundtrip (s : ContentShape) (toks rest : List Token) (fuel : Nat)
+    (hp : toks.map (·.tk) = printContent s) (hfollow : ContentFollowOK s rest) (hfuel : toks.length ≤ fuel) :
+    ∃ a, content fuel (toks ++ rest) = some (a, rest) ∧ a.shape? = some s.erase :=
+  content_print s toks rest fuel hp hfollow hfuel
+
+/-- **files**: `parseFile` on the printed file (`@import`/`@extern` lines, then contents) succeeds
+    and returns a file of the printed shape. No side condition at all: the fuel chosen by
+    `parseFile` always suffices and the end of input satisfies every follow condition. -/
+theorem file_roundtrip (f : FileShape) (toks : List Token) (hp : toks.map (·.tk) = printFile f) :
+    ∃ file, parseFile toks = some file ∧ file.shape? = some f.erase :=
+  file_print f toks hp
+
+/-- the same from source text: if the lexer yields a printing of `f`, `parseText` returns `f` -/
+theorem text_roundtrip (f : FileShape) (src : String) (toks : List Token) (hl : lex src = some toks)
+    (hp : toks.map (·.tk) = printFile f) :
+    ∃ file, parseText src = some file ∧ file.shape? = some f.erase := by
+  obtain ⟨file, h, hs⟩ := file_print f toks hp
+  exact ⟨file, by simp [parseText, hl, h], hs⟩
+
+/-- consequence: printing loses nothing but what `erase` forgets — two files with the same printed
+    tokens have the same erased shape -/
+theorem printFile_injective (f g : FileShape) (h : printFile f = printFile g) : f.erase = g.erase := by
+  let toks : List Token := (printFile f).map fun k => { tk := k, line := 0, col := 0, len := 0, endLine := 0, endCol := 0 }
+  have hf : toks.map (·.tk) = printFile f := by simp [toks, Function.comp_def]
+  obtain ⟨x, hx, hxs⟩ := file_print f toks hf
+  obtain ⟨y, hy, hys⟩ := file_print g toks (hf.trans h)
+  rw [hx] at hy
+  cases hy
+  rw [hxs] at hys
+  exact Option.some.inj hys
+
+/-- **soundness for enums**: if the declaration parser returns an enum, the tokens it consumed are
+    exactly the printing of that enum's shape (nothing skipped, nothing invented); all inputs, all fuel -/
+theorem enum_sound (fuel : Nat) (ts : List Token) (n : String) (c : List String) (is : List Item) (p : Pos)
+    (rest : List Token) (h : content fuel ts = some (.decl (.enum n c is p), rest)) :
+    ts.map (·.tk) = printEnum n c (is.map Item.shape) ++ rest.map (·.tk) := by
+  obtain ⟨g, rfl, ht⟩ := content_decl_inv fuel ts _ rest h
+  obtain ⟨cs, h1, h2⟩ := comments_sound ts
+  obtain ⟨hc, nt, eq, k, lb, body, rb, hts, hn, heq, hk, hlb, hrb, hm⟩ := typeDecl_enum_inv _ _ _ _ _ _ _ _ _ ht
+  obtain ⟨-, pre, rfl, hpre⟩ := many_sound g (peekKw "}") item printItem Item.shape item_sound g body is (rb :: rest) hm
+  rw [h1, hts]
+  simp [printEnum, printHead, h2, hc, hn, heq, hk, hlb, hrb, hpre]
+
+/-- **soundness for flags** -/
+theorem flags_sound (fuel : Nat) (ts : List Token) (n : String) (c : List String) (is : List FlagItem) (p : Pos)
+    (rest : List Token) (h : content fuel ts = some (.decl (.flags n c is p), rest)) :
+    ts.map (·.tk) = printFlags n c (is.map FlagItem.shape) ++ rest.map (·.tk) := by
+  obtain ⟨g, rfl, ht⟩ := content_decl_inv fuel ts _ rest h
+  obtain ⟨cs, h1, h2⟩ := comments_sound ts
+  obtain ⟨hc, nt, eq, k, lb, body, rb, hts, hn, heq, hk, hlb, hrb, hm⟩ := typeDecl_flags_inv _ _ _ _ _ _ _ _ _ ht
+  obtain ⟨-, pre, rfl, hpre⟩ := many_sound g (peekKw "}") flagItem printFlagItem FlagItem.shape flagItem_sound g body is
+    (rb :: rest) hm
+  rw [h1, hts]
+  simp [printFlags, printHead, h2, hc, hn, heq, hk, hlb, hrb, hpre]
+
+/-- round trip and soundness together: on enums, parsing is the exact inverse of printing -/
+theorem enum_parse_iff_print (fuel : Nat) (toks rest : List Token) (n : String) (c : List String)
+    (items : List ItemShape) (hfuel : toks.length ≤ fuel) :
+    (∃ is p, content fuel (toks ++ rest) = some (.decl (.enum n c is p), rest) ∧ is.map Item.shape = items) ↔
+    toks.map (·.tk) = printEnum n c items := by
+  constructor
+  · rintro ⟨is, p, h, rfl⟩
+    have := enum_sound fuel _ n c is p rest h
+    rw [List.map_append] at this
+    exact List.append_cancel_right this
+  · intro h
+    exact enum_roundtrip n c items toks rest fuel h hfuel
+
+/-- the same for flags -/
+theorem flags_parse_iff_print (fuel : Nat) (toks rest : List Token) (n : String) (c : List String)
+    (items : List FlagItemShape) (hfuel : toks.length ≤ fuel) :
+    (∃ is p, content fuel (toks ++ rest) = some (.decl (.flags n c is p), rest) ∧ is.map FlagItem.shape = items) ↔
+    toks.map (·.tk) = printFlags n c items := by
+  constructor
+  · rintro ⟨is, p, h, rfl⟩
+    have := flags_sound fuel _ n c is p rest h
+    rw [List.map_append] at this
+    exact List.append_cancel_right this
+  · intro h
+    exact flags_roundtrip n c items toks rest fuel h hfuel
 
 end Pydjinni.Front
